@@ -56,6 +56,9 @@ def pathheap_cases(chk, events):
         real = am.g_schema(s)
         v_real = value(tree, d)
         ev = valgen.observe_validate(real, v_real)
+        if ev.get("timeout"):
+            chk.count("re_timeout")
+            continue
         ev.update({"id": len(events) + 1, "s": s, "v": am.a_value(v_real), "srepr": safe_repr(real)[:200],
                    "vrepr": safe_repr(v_real)[:200]})
         events.append(ev)
@@ -140,6 +143,9 @@ def run(chk, prop):
                 continue
             seen.add(k)
             ev = valgen.observe_validate(real, v_real)
+            if ev.get("timeout"):
+                chk.count("re_timeout")
+                continue
             ev.update({"id": len(events) + 1, "s": s, "v": v_abs, "srepr": safe_repr(real)[:300],
                        "vrepr": safe_repr(v_real)[:200]})
             events.append(ev)
@@ -162,6 +168,9 @@ def run(chk, prop):
         except Exception:
             continue
         ev = valgen.observe_validate(temp, v_real)
+        if ev.get("timeout"):
+            chk.count("re_timeout")
+            continue
         ev.update({"id": len(events) + 1, "s": e["s"], "v": e["v"], "srepr": safe_repr(temp)[:300],
                    "vrepr": safe_repr(v_real)[:200]})
         del temp
@@ -188,6 +197,9 @@ def run(chk, prop):
         for s_abs, v_abs in family:
             v_real = am.g_value(v_abs)
             ev = valgen.observe_validate(am.g_schema(s_abs), v_real)
+            if ev.get("timeout"):
+                chk.count("re_timeout")
+                continue
             ev.update({"id": len(events) + 1, "s": s_abs, "v": v_abs, "srepr": "", "vrepr": safe_repr(v_real)[:200]})
             events.append(ev)
             chk.count("inline_schema_pairs")
@@ -217,6 +229,9 @@ def run(chk, prop):
                 except am.Unrepresentable:
                     continue
                 ev = valgen.observe_validate(real, v_real)
+                if ev.get("timeout"):
+                    chk.count("re_timeout")
+                    continue
                 ev.update({"id": len(events) + 1, "s": s, "v": v_abs, "srepr": safe_repr(real)[:300],
                            "vrepr": safe_repr(v_real)[:200]})
                 events.append(ev)
